@@ -1,4 +1,4 @@
-import FimVerif.Proofs.Lemmas.TopoAtomicSvc
+import FimVerif.Proofs.Lemmas.TopoAtomicRollback
 /-!
 # C09 — a topology-building call that raises leaves the model unchanged
 
@@ -122,13 +122,13 @@ theorem atomic_addLink (fl : Flavour) (c : Nat) (name : String) (nid : Option Ni
   exact atomic_linkNew fl c name nid lt ifs tech props s hd
 
 /-- `NetworkService.connect_interface` on a state with distinct ids and no dangling edge, when the handle refers
-to a ConnectionPoint, the two uuids drawn are new and the derived link name is valid whenever the port name is -/
+to a ConnectionPoint and the two uuids drawn are new (both derived names are validated first: commit d747e04) -/
 theorem atomic_connectInterface (fl : Flavour) (c : Nat) (svc iid : Nid) (iname : String) (cache : Cache) (s : Topo)
     (hd : IdsDistinct s) (hc : Closed s) (hcp : ∀ n ∈ s.nodes, n.nid = iid → n.cls = .connectionPoint)
-    (hfr : ∀ m ∈ s.nodes, m.nid ≠ .gen c ∧ m.nid ≠ .gen (c + 1)) (hnm : NameHyp s iname)
+    (hfr : ∀ m ∈ s.nodes, m.nid ≠ .gen c ∧ m.nid ≠ .gen (c + 1))
     (hf : failed (connectInterface fl c svc cache (.iface iid iname) s)) :
     (connectInterface fl c svc cache (.iface iid iname) s).2 = s := by
-  rcases connect_spec fl c svc iid iname cache s hd hc hcp hfr hnm with ⟨e, he⟩ | ⟨_, _, _, _, _, _, _, _, _, _, _, _, _, _, _, hres⟩
+  rcases connect_spec' fl c svc iid iname cache s hd hc hcp hfr with ⟨e, he⟩ | ⟨_, _, _, _, _, _, _, _, _, _, _, _, _, _, _, hres⟩
   · rw [he]
   · rw [hres] at hf; simp at hf
 
@@ -138,23 +138,22 @@ theorem atomic_connectInterface_bogus (fl : Flavour) (c : Nat) (svc : Nid) (cach
   unfold connectInterface; exact (readOnly_raise _).atomic
 
 
-/-! ## service creation with the rollback handler (any exception kind, commit 34d4dbd)
+/-! ## service creation with the rollback handler (any exception kind, commit 34d4dbd), any number of interfaces
 
-Full statement: for every interface list.  Proved here for lists of at most one element (`IfsOk`): whatever the
-interface makes the constructor raise - not an Interface, a stale handle, already connected, no owner, shared port on
-L2PTP, an invalid derived name - the handler's `remove_ns_with_cps_and_links` puts the model back exactly.
-NOT finished: the induction over longer lists (the handler then also disconnects the interfaces connected so far;
-the lemma "disconnecting the oldest connected interface removes exactly its ServicePort and Link" is missing). -/
+Whichever interface is the bad one - the k-th - and whatever it makes the constructor raise (not an Interface, a stale
+handle, already connected, no owner, shared port on L2PTP, an invalid derived name ...), the handler disconnects the
+interfaces connected so far (oldest first: `disconnect_head`), removes the service (`removeNs_base`) and the model is
+exactly what it was (`svcLoop_atomic`, induction over the interface list). -/
 
-theorem atomic_addNetworkService_le1 (fl : Flavour) (c : Nat) (a : SvcArgs) (s : Topo)
+theorem atomic_addNetworkService (fl : Flavour) (c : Nat) (a : SvcArgs) (s : Topo)
     (hd : IdsDistinct s) (hc : Closed s) (hfresh : ∀ m ∈ s.nodes, ∀ k, c ≤ k → m.nid ≠ .gen k)
-    (hnid : ∀ k, c ≤ k → a.nid ≠ some (.gen k)) (hifs : IfsOk s (pick a.nid c).1 a.ifs)
+    (hnid : ∀ k, c ≤ k → a.nid ≠ some (.gen k)) (hifs : IfsAll s (pick a.nid c).1 c a.ifs)
     (hf : failed (addService fl c a s)) : (addService fl c a s).2 = s :=
-  svcNew_atomic_le1 fl c none a s hd hc hfresh hnid (fun _ h => by cases h) hifs hf
+  svcNew_atomic fl c none a s hd hc hfresh hnid (fun _ h => by cases h) hifs hf
 
-theorem atomic_nodeAddService_le1 (fl : Flavour) (c : Nat) (parent : Nid) (a : SvcArgs) (s : Topo)
+theorem atomic_nodeAddService (fl : Flavour) (c : Nat) (parent : Nid) (a : SvcArgs) (s : Topo)
     (hd : IdsDistinct s) (hc : Closed s) (hfresh : ∀ m ∈ s.nodes, ∀ k, c ≤ k → m.nid ≠ .gen k)
-    (hnid : ∀ k, c ≤ k → a.nid ≠ some (.gen k)) (hifs : IfsOk s (pick a.nid c).1 a.ifs)
+    (hnid : ∀ k, c ≤ k → a.nid ≠ some (.gen k)) (hifs : IfsAll s (pick a.nid c).1 c a.ifs)
     (hf : failed (nodeAddService fl c parent a s)) : (nodeAddService fl c parent a s).2 = s := by
   unfold nodeAddService at hf ⊢
   revert hf
@@ -164,11 +163,22 @@ theorem atomic_nodeAddService_le1 (fl : Flavour) (c : Nat) (parent : Nid) (a : S
   obtain ⟨pn, t1, hpn, _⟩ := bind_ok_inv hn
   have h2 := ro_run (readOnly_findNode _) hpn
   rw [h2] at hpn
-  exact svcNew_atomic_le1 fl c (some parent) a s hd hc hfresh hnid (fun p h => by cases h; exact ⟨pn, hpn⟩) hifs
+  exact svcNew_atomic fl c (some parent) a s hd hc hfresh hnid (fun p h => by cases h; exact ⟨pn, hpn⟩) hifs
 
-/-- non-vacuity: a one-node model and a service with one bogus interface satisfy the hypotheses -/
-example : IdsDistinct ⟨[⟨.networkNode, .user "n1", "n1", "VM", []⟩], []⟩ ∧ Closed ⟨[⟨.networkNode, .user "n1", "n1", "VM", []⟩], []⟩ ∧
-    IfsOk ⟨[⟨.networkNode, .user "n1", "n1", "VM", []⟩], []⟩ (.gen 0) [.bogus] := ⟨by decide, by decide, trivial⟩
+/-- non-vacuity: a model with two interfaces and a service over [good, bogus] satisfy the hypotheses -/
+example : let s : Topo := ⟨[⟨.connectionPoint, .user "i1", "i1", "DedicatedPort", []⟩, ⟨.connectionPoint, .user "i2", "i2", "DedicatedPort", []⟩], []⟩
+    IdsDistinct s ∧ Closed s ∧ IfsAll s (.gen 0) 0 [.iface (.user "i1") "i1", .bogus] := by
+  refine ⟨by decide, by decide, ?_⟩
+  intro i hi
+  simp only [List.mem_cons, List.mem_nil_iff, or_false] at hi
+  rcases hi with rfl | rfl
+  · refine ⟨by decide, ?_, fun k _ => by simp⟩
+    intro n hn hni
+    simp only [List.mem_cons, List.mem_nil_iff, or_false] at hn
+    rcases hn with rfl | rfl
+    · rfl
+    · rfl
+  · trivial
 
 
 /-! ## one theorem over the op alphabet
@@ -176,7 +186,7 @@ example : IdsDistinct ⟨[⟨.networkNode, .user "n1", "n1", "VM", []⟩], []⟩
 `Covered op s` is the explicit guard: the calls whose atomicity is proved, with the hypotheses on the state and the
 arguments each proof uses.  The calls it excludes are the ones for which the full statement is open or false:
 `addComponent`/`addStorage` (false for caller-supplied colliding ids - known finding, see `addComponent_counterexample`),
-service creation with two or more interfaces (induction unfinished), the composites `addFacility`/`addSwitch`,
+the composites `addFacility`/`addSwitch`,
 `disconnect` and all removals. -/
 
 def FreshArgs (c : Nat) (s : Topo) (nid : Option Nid) : Prop :=
@@ -192,9 +202,9 @@ def Covered : TopoOp → Topo → Prop
   | .connect _ _ _ _ .bogus, _ => True
   | .connect _ c _ _ (.iface iid iname), s =>
       IdsDistinct s ∧ Closed s ∧ (∀ n ∈ s.nodes, n.nid = iid → n.cls = .connectionPoint) ∧
-      (∀ m ∈ s.nodes, m.nid ≠ .gen c ∧ m.nid ≠ .gen (c + 1)) ∧ NameHyp s iname
-  | .addService _ c a, s => IdsDistinct s ∧ Closed s ∧ FreshArgs c s a.nid ∧ IfsOk s (pick a.nid c).1 a.ifs
-  | .nodeAddService _ c _ a, s => IdsDistinct s ∧ Closed s ∧ FreshArgs c s a.nid ∧ IfsOk s (pick a.nid c).1 a.ifs
+      (∀ m ∈ s.nodes, m.nid ≠ .gen c ∧ m.nid ≠ .gen (c + 1))
+  | .addService _ c a, s => IdsDistinct s ∧ Closed s ∧ FreshArgs c s a.nid ∧ IfsAll s (pick a.nid c).1 c a.ifs
+  | .nodeAddService _ c _ a, s => IdsDistinct s ∧ Closed s ∧ FreshArgs c s a.nid ∧ IfsAll s (pick a.nid c).1 c a.ifs
   | _, _ => False
 
 theorem fs_of_atomic {α : Type} {m : M Topo α} (h : Atomic m) (s : Topo) : FS s (m s) := h.h s
@@ -213,14 +223,14 @@ theorem atomic_op (op : TopoOp) (s : Topo) (hcov : Covered op s) (hf : failed (s
     cases i with
     | bogus => exact FS_bind_pure (fs_of_atomic (atomic_connectInterface_bogus fl c svc ca) s)
     | iface iid iname =>
-      obtain ⟨h1, h2, h3, h4, h5⟩ := hcov
-      exact FS_bind_pure (atomic_connectInterface fl c svc iid iname ca s h1 h2 h3 h4 h5)
+      obtain ⟨h1, h2, h3, h4⟩ := hcov
+      exact FS_bind_pure (atomic_connectInterface fl c svc iid iname ca s h1 h2 h3 h4)
   | addService fl c a =>
     obtain ⟨h1, h2, ⟨h3, h4⟩, h5⟩ := hcov
-    exact FS_bind_pure (atomic_addNetworkService_le1 fl c a s h1 h2 h3 h4 h5)
+    exact FS_bind_pure (atomic_addNetworkService fl c a s h1 h2 h3 h4 h5)
   | nodeAddService fl c p a =>
     obtain ⟨h1, h2, ⟨h3, h4⟩, h5⟩ := hcov
-    exact FS_bind_pure (atomic_nodeAddService_le1 fl c p a s h1 h2 h3 h4 h5)
+    exact FS_bind_pure (atomic_nodeAddService fl c p a s h1 h2 h3 h4 h5)
   | addComponent _ _ _ _ => exact hcov.elim
   | addStorage _ _ _ _ _ _ => exact hcov.elim
   | nsRemoveInterface _ _ _ => exact hcov.elim
